@@ -6,10 +6,20 @@
 -/
 import CimbaModel.Sim.Run
 import CimbaModel.Event.Lemmas
+import Lean.Elab.Tactic
 
 namespace CimbaModel.Sim.S3
 open CimbaModel CimbaModel.Sim CimbaModel.Event CimbaModel.Generated
 open CimbaModel.HashHeap (HTag Item Order HH)
+
+/-- succeeds iff the last argument of the goal is syntactically a `World` record literal / update (`World.mk …`);
+    used by the footprint tactics so that lemmas about record updates are not applied, through structure eta, to
+    arbitrary terms -/
+elab "guard_world_lit" : tactic => do
+  let g ← Lean.Elab.Tactic.getMainGoal
+  let t ← Lean.instantiateMVars (← g.getType)
+  unless t.isApp && t.appArg!.isAppOf ``World.mk do
+    throwError "the last argument of the goal is not a World literal"
 
 /-! ### fail / emit -/
 
